@@ -800,6 +800,18 @@ def extract_adapters(errors):
                    for c in ast.walk(tp))
         guarded = "isinstance(f, self.__type__)" in src(tp)
         L.append(f"def typedlistPackConvertsRaw : Bool := {lbool(conv and guarded)}")
+        # digest setters: the length check comes before the assignment (a refused value is never stored)
+        first = True
+        for node in ast.walk(t):
+            if isinstance(node, ast.ClassDef) and node.name == "digest":
+                for fn in node.body:
+                    if isinstance(fn, ast.FunctionDef) and fn.name in ("md5", "sha1", "sha256") and len(fn.args.args) == 2:
+                        body = src(fn)
+                        i_chk = body.find("Incorrect hash length")
+                        i_set = body.find("self.__%s = val" % fn.name)
+                        if i_chk < 0 or i_set < 0 or i_set < i_chk:
+                            first = False
+        L.append(f"def digestSetterChecksFirst : Bool := {lbool(first)}")
         ti = src(find_def(t, "__init__", cls="typedlist"))
         L.append(f"def typedlistInitConverts : Bool := {lbool('self._convert(values)' in ti)}")
 
